@@ -6,6 +6,7 @@ import (
 	"encoding/base64"
 	"encoding/json"
 	"fmt"
+	"math"
 	"math/rand"
 	"strconv"
 	"strings"
@@ -60,25 +61,67 @@ var stringKeyPool = []string{"a", "A", "b", "ab", "AB", "a b", "1", "01", "10", 
 
 type caseData struct {
 	conn     connSpec
+	poolM    []mItem // every element generated for the case; items/env hold the current state of the mutable store
+	poolI    []ItemI
+	poolS    []ItemS
 	items    []mItem
 	env      *caseEnv
 	batching bool
 	v        view
 }
 
-func genAttr(r *rand.Rand, n int) Attr {
-	spread := 1 + r.Intn(3) // 1: many duplicates ... 3: few
-	rng := 1 + n*spread/3
+var bigInt64Bases = []int64{1 << 60, math.MaxInt64 - 64, -(1 << 60), math.MinInt64 + 8, 1 << 53, 1<<62 + 1<<40}
+var bigUint64Bases = []uint64{1 << 63, math.MaxUint64 - 64, 1 << 60, 1<<63 + 1<<62, 1 << 53}
+
+// listShape fixes, per list, how the "huge" sort values cluster: all values
+// of a list come from one or two bases plus deltas far below the float64
+// spacing at that magnitude (128..2048), so an order computed through float64
+// cannot tell them apart.
+type listShape struct {
+	bBases []int64
+	wBases []uint64
+	rng    int
+}
+
+func genShape(r *rand.Rand, n int) listShape {
+	sh := listShape{rng: 1 + n*(1+r.Intn(3))/3}
+	sh.bBases = []int64{bigInt64Bases[r.Intn(len(bigInt64Bases))]}
+	sh.wBases = []uint64{bigUint64Bases[r.Intn(len(bigUint64Bases))]}
+	if r.Intn(3) == 0 {
+		sh.bBases = append(sh.bBases, bigInt64Bases[r.Intn(len(bigInt64Bases))])
+		sh.wBases = append(sh.wBases, bigUint64Bases[r.Intn(len(bigUint64Bases))])
+	}
+	return sh
+}
+
+func genAttr(r *rand.Rand, sh listShape) Attr {
+	rng := sh.rng
 	a := Attr{
 		N: int64(r.Intn(rng)) - int64(rng/2),
 		S: word(r, 1+r.Intn(2)),
 		F: float64(r.Intn(rng)-rng/2) / 2,
 		U: uint16(r.Intn(rng)),
+		B: sh.bBases[r.Intn(len(sh.bBases))] + int64(r.Intn(rng+1)),
+		W: sh.wBases[r.Intn(len(sh.wBases))] + uint64(r.Intn(rng+1)),
+		I: int32(r.Intn(rng)) - int32(rng/2),
+		V: math.MaxUint32 - uint32(r.Intn(rng)),
+		G: float32(r.Intn(rng)-rng/2) / 4,
+	}
+	if r.Intn(8) == 0 {
+		a.I = math.MinInt32 + int32(r.Intn(3))
 	}
 	for i := range a.T {
 		a.T[i] = text(r)
 	}
 	return a
+}
+
+func mkI(id int64, a Attr) ItemI {
+	return ItemI{Id: id, N: a.N, S: a.S, F: a.F, U: a.U, B: a.B, W: a.W, I: a.I, V: a.V, G: a.G, T0: a.T[0], T1: a.T[1], T2: a.T[2]}
+}
+
+func mkS(id string, a Attr) ItemS {
+	return ItemS{Id: id, N: a.N, S: a.S, F: a.F, U: a.U, B: a.B, W: a.W, I: a.I, V: a.V, G: a.G, T0: a.T[0], T1: a.T[1], T2: a.T[2]}
 }
 
 func genList(r *rand.Rand, c connSpec) ([]mItem, *caseEnv) {
@@ -94,6 +137,7 @@ func genList(r *rand.Rand, c connSpec) ([]mItem, *caseEnv) {
 		n = 9 + r.Intn(32)
 	}
 	env := &caseEnv{}
+	sh := genShape(r, n)
 	items := make([]mItem, 0, n)
 	usedS := map[string]bool{}
 	if c.stringKey {
@@ -109,8 +153,8 @@ func genList(r *rand.Rand, c connSpec) ([]mItem, *caseEnv) {
 				id = fmt.Sprintf("u%d", i)
 			}
 			usedS[id] = true
-			a := genAttr(r, n)
-			env.itemsS = append(env.itemsS, ItemS{Id: id, N: a.N, S: a.S, F: a.F, U: a.U, T0: a.T[0], T1: a.T[1], T2: a.T[2]})
+			a := genAttr(r, sh)
+			env.itemsS = append(env.itemsS, mkS(id, a))
 			items = append(items, mItem{id: id, attr: a})
 		}
 	} else {
@@ -131,8 +175,8 @@ func genList(r *rand.Rand, c connSpec) ([]mItem, *caseEnv) {
 				}
 			}
 			used[id] = true
-			a := genAttr(r, n)
-			env.itemsI = append(env.itemsI, ItemI{Id: id, N: a.N, S: a.S, F: a.F, U: a.U, T0: a.T[0], T1: a.T[1], T2: a.T[2]})
+			a := genAttr(r, sh)
+			env.itemsI = append(env.itemsI, mkI(id, a))
 			ids := strconv.FormatInt(id, 10)
 			items = append(items, mItem{id: ids, attr: a})
 		}
@@ -313,25 +357,48 @@ type executor struct {
 	schema *graphql.Schema
 }
 
-func (e *executor) run(cd *caseData, q string, vars map[string]interface{}) (obs *observed, raw string, err error) {
+func (e *executor) ctx(cd *caseData) context.Context {
+	ctx := context.WithValue(context.Background(), envKey{}, cd.env)
+	if cd.batching {
+		ctx = batch.WithBatching(ctx)
+	}
+	return ctx
+}
+
+// prepare parses and prepares a query ONCE; the returned object can be
+// executed any number of times (as thunder's live queries do).
+func (e *executor) prepare(cd *caseData, q string, vars map[string]interface{}) (parsed *graphql.Query, err error) {
 	defer func() {
 		if p := recover(); p != nil {
 			err = fmt.Errorf("panic: %v", p)
 		}
 	}()
-	ctx := context.WithValue(context.Background(), envKey{}, cd.env)
-	if cd.batching {
-		ctx = batch.WithBatching(ctx)
-	}
-	parsed, err := graphql.Parse(q, vars)
+	parsed, err = graphql.Parse(q, vars)
 	if err != nil {
-		return nil, "", fmt.Errorf("parse: %v", err)
+		return nil, fmt.Errorf("parse: %v", err)
 	}
-	if err := graphql.PrepareQuery(ctx, e.schema.Query, parsed.SelectionSet); err != nil {
-		return nil, "", fmt.Errorf("prepare: %v", err)
+	if err := graphql.PrepareQuery(e.ctx(cd), e.schema.Query, parsed.SelectionSet); err != nil {
+		return nil, fmt.Errorf("prepare: %v", err)
 	}
+	return parsed, nil
+}
+
+func (e *executor) run(cd *caseData, q string, vars map[string]interface{}) (obs *observed, raw string, err error) {
+	parsed, err := e.prepare(cd, q, vars)
+	if err != nil {
+		return nil, "", err
+	}
+	return e.exec(cd, parsed)
+}
+
+func (e *executor) exec(cd *caseData, parsed *graphql.Query) (obs *observed, raw string, err error) {
+	defer func() {
+		if p := recover(); p != nil {
+			err = fmt.Errorf("panic: %v", p)
+		}
+	}()
 	ex := graphql.NewExecutor(graphql.NewImmediateGoroutineScheduler())
-	val, err := ex.Execute(ctx, e.schema.Query, nil, parsed)
+	val, err := ex.Execute(e.ctx(cd), e.schema.Query, nil, parsed)
 	if err != nil {
 		return nil, "", fmt.Errorf("execute: %v", err)
 	}
@@ -490,9 +557,34 @@ func bucket(n int) string {
 // checkPage runs one query and compares it with the model. It returns the
 // observation (nil when the query failed).
 func (c *checker) checkPage(kind string, w wireArgs, a pageArgs, useVars bool) *observed {
+	return c.checkPagePrepared(kind, w, a, useVars, nil, nil)
+}
+
+// preparedQuery is a query parsed + prepared once and executed repeatedly.
+type preparedQuery struct {
+	q      string
+	vars   map[string]interface{}
+	parsed *graphql.Query
+	runs   int
+}
+
+// checkPagePrepared is checkPage on an already prepared query object (pq) when
+// given; extra is added to the witness.
+func (c *checker) checkPagePrepared(kind string, w wireArgs, a pageArgs, useVars bool, pq *preparedQuery, extra map[string]interface{}) *observed {
 	cd := c.cd
-	q, vars := render(cd.conn, cd.v, w, useVars)
-	obs, raw, err := c.ex.run(cd, q, vars)
+	var q string
+	var vars map[string]interface{}
+	var obs *observed
+	var raw string
+	var err error
+	if pq != nil {
+		q, vars = pq.q, pq.vars
+		obs, raw, err = c.ex.exec(cd, pq.parsed)
+		pq.runs++
+	} else {
+		q, vars = render(cd.conn, cd.v, w, useVars)
+		obs, raw, err = c.ex.run(cd, q, vars)
+	}
 	m := len(c.l)
 	exp := slice(m, a)
 	both := a.hasAfter && a.hasBefore
@@ -558,8 +650,14 @@ func (c *checker) checkPage(kind string, w wireArgs, a pageArgs, useVars bool) *
 		c.run.Count("nontrivial_queries", 1)
 	}
 
+	withExtra := func(m map[string]interface{}) map[string]interface{} {
+		for k, v := range extra {
+			m[k] = v
+		}
+		return m
+	}
 	if err != nil {
-		c.run.Violation(c.i, "", c.witness("query failed", q, vars, map[string]interface{}{"error": err.Error(), "response": vlib.Trunc(raw, 2000)}))
+		c.run.Violation(c.i, "", c.witness("query failed", q, vars, withExtra(map[string]interface{}{"error": err.Error(), "response": vlib.Trunc(raw, 2000)})))
 		return nil
 	}
 	expIDs := ids(c.l[exp.lo:exp.hi])
@@ -614,13 +712,13 @@ func (c *checker) checkPage(kind string, w wireArgs, a pageArgs, useVars bool) *
 			a.hasAfter && a.afterPos >= 0 && a.hasBefore && a.beforePos == m-1 && a.beforePos > a.afterPos {
 			class = classBeforeLast
 		}
-		c.run.Violation(c.i, class, c.witness("page differs from the reference model: "+strings.Join(bad, ", "), q, vars, map[string]interface{}{
+		c.run.Violation(c.i, class, c.witness("page differs from the reference model: "+strings.Join(bad, ", "), q, vars, withExtra(map[string]interface{}{
 			"response": vlib.Trunc(obs.raw, 4000),
 			"expected": map[string]interface{}{
 				"ids": expIDs, "totalCount": m, "hasNextPage": exp.hasNext, "hasPrevPage": exp.hasPrev,
 				"after_names_position": a.afterPos, "before_names_position": a.beforePos, "has_after": a.hasAfter, "has_before": a.hasBefore,
 			},
-		}))
+		})))
 	}
 	if c.run.WantSample() && nontrivial && both && exp.hi > exp.lo {
 		c.run.Sample(map[string]interface{}{"query": q, "variables": vars, "filtered_sorted": ids(c.l), "response": vlib.Trunc(obs.raw, 600)})
@@ -821,12 +919,221 @@ func (c *checker) absolute(r *rand.Rand) {
 	c.checkPage("absolute", w, a, r.Intn(3) == 0)
 }
 
+// setState makes the mutable store (what the paginated resolvers read) hold
+// the pool elements idx, in that order, and re-derives the model's view.
+func (c *checker) setState(idx []int) {
+	cd := c.cd
+	cd.items = make([]mItem, 0, len(idx))
+	var is []ItemI
+	var ss []ItemS
+	for _, p := range idx {
+		cd.items = append(cd.items, cd.poolM[p])
+		if cd.conn.stringKey {
+			ss = append(ss, cd.poolS[p])
+		} else {
+			is = append(is, cd.poolI[p])
+		}
+	}
+	cd.env.itemsI, cd.env.itemsS = is, ss
+	c.setList()
+}
+
+// setList re-derives the filtered+sorted list of the current view from the
+// current store.
+func (c *checker) setList() {
+	c.l = c.cd.v.apply(c.cd.conn, c.cd.items)
+	c.pos = map[string]int{}
+	for p, it := range c.l {
+		c.pos[it.id] = p
+	}
+	c.dup = c.cd.v.hasDupSortValues(c.l)
+	c.fact = c.cd.v.filterActive()
+}
+
+// posOfCursor: position in the current filtered+sorted list of the element
+// the cursor names, -1 when it names none of them.
+func (c *checker) posOfCursor(cu string) int {
+	for id, x := range c.cur {
+		if x == cu {
+			if p, ok := c.pos[id]; ok {
+				return p
+			}
+		}
+	}
+	return -1
+}
+
+// sequence parses + prepares ONE query and executes that same object several
+// times while the list behind the resolver grows and shrinks — what a live
+// query (websocket subscription, reactive re-run) does. Every execution is
+// compared with the model evaluated on the list as it is at that moment.
+func (c *checker) sequence(r *rand.Rand) {
+	cd := c.cd
+	pool := len(cd.poolM)
+	if pool < 2 {
+		return
+	}
+	all := make([]int, pool)
+	for i := range all {
+		all[i] = i
+	}
+	defer c.setState(all)
+
+	// initial state: usually small
+	var size0 int
+	switch r.Intn(6) {
+	case 0:
+		size0 = 0
+	case 1:
+		size0 = 1
+	case 2:
+		size0 = 2
+	case 3:
+		size0 = pool
+	default:
+		size0 = r.Intn(pool/2 + 1)
+	}
+	perm := r.Perm(pool)
+	state := append([]int(nil), perm[:size0]...)
+	present := make([]bool, pool)
+	for _, p := range state {
+		present[p] = true
+	}
+	c.setState(state)
+	m := len(c.l)
+
+	var w wireArgs
+	limit := 1 + r.Intn(pool+2)
+	mode := r.Intn(6)
+	switch mode {
+	case 0: // first only
+		w.first = &limit
+	case 1: // parked at the tail: first + after the newest element
+		w.first = &limit
+		if m > 0 {
+			cu := c.cur[c.l[m-1].id]
+			w.after = &cu
+		}
+	case 2: // last only
+		w.last = &limit
+	case 3: // parked at the head: last + before the oldest element
+		w.last = &limit
+		if m > 0 {
+			cu := c.cur[c.l[0].id]
+			w.before = &cu
+		}
+	default:
+		if r.Intn(2) == 0 {
+			w.first = genLimit(r, pool)
+		} else {
+			w.last = genLimit(r, pool)
+		}
+		if r.Intn(2) == 0 {
+			w.after, _, _ = c.genCursor(r)
+		}
+		if r.Intn(2) == 0 {
+			w.before, _, _ = c.genCursor(r)
+		}
+	}
+	useVars := r.Intn(3) == 0
+	q, vars := render(cd.conn, cd.v, w, useVars)
+	parsed, err := c.ex.prepare(cd, q, vars)
+	if err != nil {
+		c.run.Violation(c.i, "", c.witness("query failed", q, vars, map[string]interface{}{"error": err.Error()}))
+		return
+	}
+	pq := &preparedQuery{q: q, vars: vars, parsed: parsed}
+	c.run.Count("prepared:sequences", 1)
+
+	var history [][]string
+	minStarved := -1 // fewest edges that were available at an execution where first/last asked for more
+	steps := 4 + r.Intn(3)
+	for step := 0; step < steps; step++ {
+		a := pageArgs{first: w.first, last: w.last}
+		if w.after != nil {
+			a.hasAfter, a.afterPos = true, c.posOfCursor(*w.after)
+		}
+		if w.before != nil {
+			a.hasBefore, a.beforePos = true, c.posOfCursor(*w.before)
+		}
+		exp := slice(len(c.l), a)
+		lim := -1
+		if w.first != nil {
+			lim = *w.first
+		} else if w.last != nil {
+			lim = *w.last
+		}
+		if minStarved >= 0 && exp.avail > minStarved && lim > minStarved {
+			c.run.Count("prepared:rerun_with_more_edges_than_at_an_earlier_starved_run", 1)
+		}
+		if lim > exp.avail && (minStarved < 0 || exp.avail < minStarved) {
+			minStarved = exp.avail
+			if exp.avail == 0 {
+				c.run.Count("prepared:run_with_zero_edges_available", 1)
+			}
+		}
+		history = append(history, ids(cd.items))
+		kind := "prepared_first_run"
+		if step > 0 {
+			kind = "prepared_rerun"
+		}
+		obs := c.checkPagePrepared(kind, w, a, useVars, pq, map[string]interface{}{
+			"same_prepared_query_object_execution_no": step + 1,
+			"store_at_each_execution":                 history,
+		})
+		if obs == nil {
+			return
+		}
+		// the store changes between executions
+		grow := r.Intn(4) != 0
+		if len(state) == 0 {
+			grow = true
+		}
+		if len(state) == pool {
+			grow = false
+		}
+		if grow {
+			k := 1 + r.Intn(4)
+			for _, p := range r.Perm(pool) {
+				if k == 0 {
+					break
+				}
+				if present[p] {
+					continue
+				}
+				present[p] = true
+				k--
+				switch x := r.Intn(20); {
+				case x < 12:
+					state = append(state, p)
+				case x < 15:
+					state = append([]int{p}, state...)
+				default:
+					at := r.Intn(len(state) + 1)
+					state = append(state[:at:at], append([]int{p}, state[at:]...)...)
+				}
+			}
+			c.run.Count("prepared:store_grew", 1)
+		} else {
+			k := 1 + r.Intn(2)
+			for ; k > 0 && len(state) > 0; k-- {
+				at := r.Intn(len(state))
+				present[state[at]] = false
+				state = append(state[:at:at], state[at+1:]...)
+			}
+			c.run.Count("prepared:store_shrank", 1)
+		}
+		c.setState(state)
+	}
+}
+
 func runCase(run *vlib.Run, ex *executor, i int) {
 	r := run.Rand("case", i)
 	ci := r.Intn(len(conns))
 	conn := conns[ci]
 	items, env := genList(r, conn)
 	cd := &caseData{conn: conn, items: items, env: env, batching: r.Intn(2) == 0}
+	cd.poolM, cd.poolI, cd.poolS = items, env.itemsI, env.itemsS
 
 	c := &checker{run: run, ex: ex, i: i, cd: cd}
 
@@ -870,13 +1177,7 @@ func runCase(run *vlib.Run, ex *executor, i int) {
 	}
 	for _, v := range views {
 		cd.v = v
-		c.l = v.apply(conn, items)
-		c.pos = map[string]int{}
-		for p, it := range c.l {
-			c.pos[it.id] = p
-		}
-		c.dup = v.hasDupSortValues(c.l)
-		c.fact = v.filterActive()
+		c.setList()
 		m := len(c.l)
 
 		run.Count("conn:"+conn.name, 1)
@@ -945,6 +1246,11 @@ func runCase(run *vlib.Run, ex *executor, i int) {
 		for j := 0; j < nAbs; j++ {
 			c.absolute(r)
 		}
+
+		// one prepared query object executed repeatedly while the list changes
+		for j := 0; j < 2; j++ {
+			c.sequence(r)
+		}
 	}
 	for k := 0; k < nCounters; k++ {
 		run.Count("calls:"+counterNames[k], int(atomic.LoadInt64(&env.calls[k])))
@@ -955,10 +1261,13 @@ func TestCheck(t *testing.T) {
 	run := vlib.Start(t, "C11", "exploration")
 	defer run.Finish()
 	run.Rule("case = one list (0-40 elements, unique int or string keys, sort values with duplicates, three mixed-case filter texts per element) served by one of four thunder-managed paginated fields " +
-		"(value/pointer nodes x int/string key; filter fields plain/Expensive/batch/batch-with-fallback, 16 sort fields = int64/string/float64/uint16 x plain/Expensive/batch/batch-with-fallback, fallback flags random) " +
+		"(value/pointer nodes x int/string key; filter fields plain/Expensive/batch/batch-with-fallback, 36 sort fields = int64/string/float64/uint16/int32/uint32/float32 + int64 and uint64 with clusters of values above 2^53 (1<<60+d, MaxInt64-d, MinInt64+d, 1<<63+d, MaxUint64-d; d far below the float64 spacing) x plain/Expensive/batch/batch-with-fallback, fallback flags random; the model compares every sort value exactly in its own type) " +
 		"x 1-2 views (filterText of space-separated words / quoted phrases / empty tokens, optional filterTextFields subset incl. an unknown name, sortBy/sortOrder asc/desc/default). " +
 		"Per view: the whole list, a forward walk (first/after from endCursor while hasNextPage), a backward walk (last/before from startCursor while hasPrevPage), 10 absolute-position queries " +
-		"(first or last in {0,1,<len,=len,>len}; after/before valid first/middle/last, unknown = garbage / empty / base64 of a missing key / cursor of a filtered-out element; both cursors ordered, adjacent, same, inverted); arguments as literals or as variables; with and without batch.WithBatching. " +
+		"(first or last in {0,1,<len,=len,>len}; after/before valid first/middle/last, unknown = garbage / empty / base64 of a missing key / cursor of a filtered-out element; both cursors ordered, adjacent, same, inverted), " +
+		"and 2 prepared-query sequences: Parse + PrepareQuery ONCE, then 4-6 executions of the same *graphql.Query object while the mutable store behind the resolver grows (append / prepend / insert) and shrinks between executions " +
+		"(first only, first + after the newest element, last only, last + before the oldest element, random; initial store often empty or smaller than first/last), each execution compared with the model on the then-current list; " +
+		"arguments as literals or as variables; with and without batch.WithBatching. " +
 		"One evaluation = one executed query compared with the reference model. Non-trivial = page cut short by first/last, or filter text with tokens, or duplicate sort values among the listed elements, or both cursors given; " +
 		"distinct = (query kind, connection, list/filtered size buckets, filter/sort configuration, argument pattern, expected page shape).")
 	run.Assume("keys are unique within a list and non-empty; first and last are never sent together and never negative (thunder rejects those by design)")
